@@ -1208,7 +1208,10 @@ def through_alias_clause(ctx, col, tree, alias_errors):
                     listed = found.target.aliases.get(dotted)
                 except soft:
                     continue
-                if listed is not found:
+                # (the wrappers are rebuilt on every access, also by the nested lookups that resolving a sibling triggers: what is
+                # listed under the wrapper's path is this wrapper or an equal one - same parent, same target)
+                if listed is not found and not (listed is not None and listed.is_alias and listed.parent is m and listed.resolved
+                                                and listed.target is found.target):
                     return "backref-listed", {"alias": dotted, "form": form_name, "through_alias": True}
         # a name the target does not have is not found through the alias either
         try:
@@ -1230,6 +1233,17 @@ def impl_only_history(ctx, n, label="impl-only"):
     col = griffe.ModulesCollection()
     hist = []
     moved = set()
+    objs = []            # every object constructed in this history
+    entries = {}         # (id(object), key) -> alias: the aliases dictionaries as last observed
+    regs = {}            # id(alias) -> {(id(object), key)}: every entry ever observed to hold the alias
+
+    def observe_entries():
+        for ob in objs:
+            if not ob.is_alias:
+                for k3, a3 in ob.aliases.items():
+                    if entries.get((id(ob), k3)) is not a3:
+                        entries[(id(ob), k3)] = a3
+                        regs.setdefault(id(a3), set()).add((id(ob), k3))
 
     def walk():
         out, stack, seen = [], [((), col)], set()
@@ -1294,6 +1308,7 @@ def impl_only_history(ctx, n, label="impl-only"):
                         o = griffe.Alias(name, tp)
                     else:
                         o = {"C": griffe.Class, "F": griffe.Function, "A": griffe.Attribute}[kind](name)
+                objs.append(o)
                 hist.append(["new", k if isinstance(k, str) else list(k), type(o).__name__, getattr(o, "target_path", None),
                              str(getattr(o, "_filepath", "") or "")])
                 if rng.random() < 0.75:
@@ -1345,6 +1360,17 @@ def impl_only_history(ctx, n, label="impl-only"):
                     if not dests:
                         continue
                     p2, c2 = rng.choice(dests)
+                    # only an alias of which no back-reference is left behind (the discipline of the theorems: a stale entry of
+                    # a moved alias is finding C16-F3's territory, which this stream has no exact classifier for)
+                    listed = False
+                    if a.resolved:
+                        try:
+                            listed = any(x is a for x in a.final_target.aliases.values())
+                        except (ARE, CAE, KeyError, AttributeError, ValueError):
+                            listed = True
+                    if listed:
+                        ctx.observe("impl_only_event", "alias-move-skipped")
+                        continue
                     hist.append(["move", ".".join(q), ".".join(p2)])
                     col.del_member(".".join(q))
                     c2.set_member(a.name, a)
@@ -1391,7 +1417,10 @@ def impl_only_history(ctx, n, label="impl-only"):
                 ctx.observe("direct_failure", "impl-only:through-alias:" + bad + ("/F4" if fid else ""))
                 ctx.property_failure({"stream": label, "history": list(hist)}, {"clause": bad, "detail": {"key": str(k), "through_alias": True}}, finding=fid)
                 return      # (known: the inserted object now hangs under a transient alias, the history ends here)
-        for q, c2, m in walk():
+        observe_entries()
+        tree_now = walk()
+        live_ids = {id(m3) for _, _, m3 in tree_now}
+        for q, c2, m in tree_now:
             dotted = ".".join(q)
             bad = None
             if (c2 is col and m.parent is not None and not m.is_alias) or (c2 is not col and m.parent is not c2):
@@ -1420,7 +1449,17 @@ def impl_only_history(ctx, n, label="impl-only"):
                     keys = [k2.split(".") for k2, a2 in m.target.aliases.items() if a2 is m]
                     if keys and all(len(k2) < len(q) and list(q[-len(k2):]) == k2 for k2 in keys):
                         fid = "C16-F1"
-                ctx.observe("direct_failure", "impl-only:" + bad + ("/F1" if fid else ""))
+                if bad == "backref-listed" and fid is None:
+                    # C16-F3, exact: the alias HAS been written under its present path at its present target, and the entry is
+                    # now held by an alias that is no longer in the tree and still spells that path
+                    h3 = m.target.aliases.get(dotted)
+                    try:
+                        if ((id(m.target), dotted) in regs.get(id(m), ()) and h3 is not None and h3 is not m and h3.is_alias
+                                and id(h3) not in live_ids and h3.path == dotted):
+                            fid = "C16-F3"
+                    except (AttributeError, RecursionError):
+                        pass
+                ctx.observe("direct_failure", "impl-only:" + bad + ("/" + fid[4:] if fid else ""))
                 ctx.property_failure({"stream": label, "history": list(hist)}, {"clause": bad, "detail": dotted}, finding=fid)
                 if fid is None:
                     return
@@ -1429,7 +1468,14 @@ def impl_only_history(ctx, n, label="impl-only"):
         # every mutation): the names are those of the target's members NOW; what `alias_path.name` returns - by get_member or [],
         # dotted string or tuple, in one go, chained, or one name at a time - is a wrapper alias whose path continues the alias's
         # path, whose target is the object the target holds under that name NOW, and which is listed among that object's aliases
-        bad = through_alias_clause(ctx, col, walk(), (ARE, CAE))
+        try:
+            bad = through_alias_clause(ctx, col, walk(), (ARE, CAE))
+        except RecursionError:
+            # an alias that was moved onto the path its own target_path goes through: resolving it never ends (cyclic aliases are
+            # C06's subject); counted, the history ends here
+            ctx.observe("impl_only_event", "cyclic-alias-recursion")
+            ctx.case({"stream": label, "ops": hist}, len(hist) > 3)
+            return
         if bad is not None:
             ctx.observe("direct_failure", "impl-only:" + bad[0])
             ctx.property_failure({"stream": label, "history": list(hist)}, {"clause": bad[0], "detail": bad[1]})
